@@ -440,6 +440,10 @@ where
                     minimq::MinimqError::Protocol(minimq::ProtocolError::Serialization(
                         minimq::SerError::InsufficientMemory,
                     )),
+                )))
+                | Err(minimq::PubError::Serialization(miniconf::Error::Inner(
+                    _,
+                    serde_json_core::ser::Error::BufferFull,
                 ))) => {
                     let props = [ResponseCode::Error.into()];
                     let mut response =
